@@ -266,9 +266,12 @@ def _pairing(model, rep, mod, ci):
                '' if app is not None else 'the site is not appended to the new species list (or not under the non-vacant '
                                           'guard)', engine='owner')
         # the whole update is skipped only when nothing changes
+        from ._common import conditions_at
         par = blk
-        okg = isinstance(par, ast.If) and unparse(par.test) in ('%s != %s' % (old, c), '%s != %s' % (c, old))
-        rep.ob('paired-update', mod, par if isinstance(par, ast.If) else st, 'update guarded by %s != %s' % (old, c), okg,
+        conds = conditions_at(setocc, st)
+        okg = bool(conds & {'%s != %s' % (old, c), '%s != %s' % (c, old)})
+        rep.ob('paired-update', mod, par if isinstance(par, ast.If) else st, 'update guarded by %s != %s (conditions holding at the store: %s)'
+               % (old, c, sorted(conds)), okg,
                '' if okg else 'update not guarded by "occupancy actually changes": a repeated placement would duplicate '
                               'the site in chemorder', engine='owner')
     # __imul__
